@@ -64,6 +64,4 @@ void h_reldist(void) {
     (void)r;
     V_CANARY("reldist returns");
 }
-#ifdef VERIF_NATIVE
-int main(void) { h_reldist(); printf("REPLAY: postcondition held\n"); return 0; }
-#endif
+V_MAIN(h_reldist)
